@@ -10,7 +10,7 @@ inductive Outcome (α : Type) where
   | ok (a : α)
   | err (e : String)
   | panic (site : String)
-deriving Repr
+deriving Repr, DecidableEq
 
 namespace Outcome
 
